@@ -36,6 +36,8 @@ func checkC02(c *Check) {
 	c.RuleDoc["R02.17"] = "no empty data block is emitted (= R09.14): its size word is the end mark, and the sequential Reader takes a zero-length block for 'block left in its own buffer' and hands out stale bytes"
 	ruleInitTransition(c, p, "R02.18")
 	c.RuleDoc["R02.18"] = "the first-use initialisation is followed by the state transition on every path (= R17.10): otherwise the header is written twice and the frame no longer decodes"
+	ruleConcurrencyAtLeastOne(c, p, "R02.21")
+	c.RuleDoc["R02.21"] = "= R08.14: the stored concurrency is at least 1 (0 selects the concurrent path with a nil queue: the first block blocks forever)"
 	ruleNoAppendOntoBlockBytes(c, p, "R02.20")
 	c.RuleDoc["R02.20"] = "nothing is appended to a slice of block bytes (borrowed from the caller or from the pool)"
 	ruleCloseWAlwaysCloses(c, p, "R02.19")
@@ -74,6 +76,8 @@ func checkC08(c *Check) {
 	ruleOrderingGoroutineLatch(c, p, "R08.10")
 	ruleContentHashDiscipline(c, p, "R08.11")
 	ruleContentHashFeed(c, p, "R08.12")
+	ruleReadFromRelease(c, p, "R08.18")
+	c.RuleDoc["R08.18"] = "ReadFrom does not release a buffer it has handed to the pipeline (finite-state exploration of its loop)"
 	ruleCollectorStopsAfterFailure(c, p, "R08.17")
 	c.RuleDoc["R08.17"] = "the collector of the concurrent decoder forwards nothing after a failed block (finite-state exploration of its loop)"
 	ruleCloseWAlwaysCloses(c, p, "R08.15")
@@ -119,6 +123,8 @@ func checkC09(c *Check) {
 	c.RuleDoc["R09.16"] = "= R02.13 (pending bytes emitted once, in call order)"
 	ruleBuffersRefetched(c, p, "R09.17", "Writer")
 	c.RuleDoc["R09.17"] = "the Writer's block buffer is sized from the block-size code of the frame being started (legacy: 8 MiB of content per block)"
+	ruleCloseWAlwaysCloses(c, p, "R09.21")
+	c.RuleDoc["R09.21"] = "= R08.15: Close waits for the pipeline on every path (a legacy frame closed early is cut short)"
 	ruleDirectWrite(c, p, "R09.19")
 	c.RuleDoc["R09.19"] = "= R02.7: a caller's block is compressed in place only when nothing is pending (otherwise the frame is well formed but carries the content in another order)"
 	ruleInitTransition(c, p, "R09.20")
